@@ -43,6 +43,8 @@ def case(ctx, i):
     feat = "other"
     if any(has_anonymous_member(pr.p, e.type_name) for e in pr.expects if e.type_name):
         feat = "record-with-anonymous-member"
+    if any(swapped_pointer_members(pr.p, e) for e in pr.expects if e.kind == "reorder-members"):
+        feat = "swapped-pointer-members"
     if any(has_self_pointer(pr.p, e.type_name) for e in pr.expects if e.type_name):
         feat = "selfptr-member"
     if dflt.rc != leaf.rc:
@@ -78,6 +80,29 @@ def case(ctx, i):
     r.add("configs", wl.describe_cfg(pr.cfg))
     r.sample = {"mutations": [e.kind for e in pr.expects], "config": wl.describe_cfg(pr.cfg), "status": dflt.rc, "changed_default_mode": sorted(changed)[:5]}
     return r
+
+
+def swapped_pointer_members(prog, e):
+    """Did 'reorder-members' swap two members that are both pointers (to whatever)?"""
+    from .. import progen
+    rec = prog.find_type(e.type_name.split(":", 1)[1]) if e.type_name and ":" in e.type_name else None
+    if not isinstance(rec, progen.Record):
+        return False
+
+    def holders(r_):
+        yield r_
+        for f in r_.fields:
+            if isinstance(f.type, progen.Record) and f.type.name is None:
+                for h in holders(f.type):
+                    yield h
+    for h in holders(rec):
+        names = [f.name for f in h.fields]
+        if e.entity in names:
+            k = names.index(e.entity)       # in the original program the entity sits right after its partner
+            if k >= 1:
+                a, b = progen.resolve(h.fields[k - 1].type), progen.resolve(h.fields[k].type)
+                return isinstance(a, progen.Pointer) and isinstance(b, progen.Pointer)
+    return False
 
 
 def has_self_pointer(prog, type_key):
